@@ -64,7 +64,7 @@ def c17Sub : ClassDef :=
 def c17Top : ClassDef :=
   { name := "Top", params := [⟨"a", .none, true, none, .notSel⟩, ⟨"b", .none, true, none, .notSel⟩,
       ⟨"n", .int 1, false, some (0, 100), .notSel⟩, ⟨"choice", .none, false, none, .choice⟩],
-    methods := [⟨"m", [.sub "a" "x"]⟩, ⟨"k", [.own "n"]⟩, ⟨"mb", [.sub "a" "y", .sub "b" "y"]⟩], plain := ["cb"] }
+    methods := [⟨"m", [.path ["a", "x"]]⟩, ⟨"k", [.own "n"]⟩, ⟨"mb", [.path ["a", "y"], .path ["b", "y"]]⟩], plain := ["cb"] }
 /-- no object yet; the class-level `_objects` / `names` of `Top.choice` (a `Selector()`) are lists 0 and 1 -/
 def c17Empty : World := { classes := [c17Sub, c17Top], objs := [], cells := [[], []], nextPid := 1, log := [],
                           clsSlots := [(1, "choice", 0, 1)] }
@@ -238,6 +238,29 @@ example : (match runOps (getW (copyGraph .unbound c17W 1)) [.set 3 "choice" (.in
     | .ok w => (w.cells[0]?, (snapshot w 3).head?.map (·.sel), (snapshot w 1).head?.map (·.sel))
     | .error _ => (none, none, none)) =
     (some [], some [("choice", true, [5], [])], some [("choice", false, [], [])]) := by rfl
+-- a method depending on two parameters runs ONCE per batched update, on the copy as on the original (df4891c)
+def c17Pair : ClassDef :=
+  { name := "Pair", params := [⟨"x", .int 0, false, none, .notSel⟩, ⟨"y", .int 0, false, none, .notSel⟩],
+    methods := [⟨"sxy", [.own "x", .own "y"]⟩], plain := ["cb"] }
+def c17PairW : World :=
+  match runOps { classes := [c17Pair], objs := [], cells := [], nextPid := 1, log := [] }
+      [.new 0 [], .watch 0 ["x", "y"] 0 "cb"] with
+  | .ok w => w | .error _ => c17Empty
+example : (match runOps (getW (copyGraph .unbound c17PairW 0)) [.update 1 [("x", .int 2), ("y", .int 3)], .update 0 [("x", .int 4), ("y", .int 5)]] with
+    | .ok w => w.log | .error _ => []) = [(1, "sxy"), (1, "cb"), (0, "sxy"), (0, "cb")] := by rfl
+-- a dependency path through two sub-objects ('mid.leaf.x'): after the copy, replacing the leaf on the copy rebinds the
+-- copy's method to the new leaf — the original's is not touched (a036968)
+def c17Leaf : ClassDef := { name := "Leaf", params := [⟨"x", .int 0, false, none, .notSel⟩], methods := [], plain := [] }
+def c17Mid : ClassDef := { name := "Mid", params := [⟨"leaf", .none, true, none, .notSel⟩], methods := [], plain := [] }
+def c17Root : ClassDef :=
+  { name := "Root3", params := [⟨"mid", .none, true, none, .notSel⟩], methods := [⟨"m", [.path ["mid", "leaf", "x"]]⟩], plain := [] }
+def c17DeepW : World :=
+  match runOps { classes := [c17Leaf, c17Mid, c17Root], objs := [], cells := [], nextPid := 1, log := [] }
+      [.new 0 [("x", .int 1)], .new 1 [("leaf", .obj 0)], .new 2 [("mid", .obj 1)], .new 0 [("x", .int 5)]] with
+  | .ok w => w | .error _ => c17Empty
+-- objects 0,1,2 = leaf, mid, root; 3 = a spare leaf; the copy of the root is 4+2 = 6, of the mid 5, of the spare leaf 7
+example : (match runOps (getW (copyGraph .unbound c17DeepW 2)) [.set 5 "leaf" (.obj 7), .set 7 "x" (.int 9), .set 0 "x" (.int 8), .set 4 "x" (.int 3)] with
+    | .ok w => w.log | .error _ => []) = [(6, "m"), (6, "m"), (2, "m")] := by rfl
 -- a copy-side history satisfying `opsIn`
 example : opsIn (fun o => c17W.objs.length ≤ o) (fun c => c17W.cells.length ≤ c)
     (getW (copyGraph .unbound c17W 1)) [.set 2 "x" (.int 9), .set 3 "a" .none] := by
